@@ -21,14 +21,16 @@ def gen_group(rng):
         else: pitches.append(rng.choice(NOTES) + rng.choice(["", "", "+", "-"]))
     lens = [rng.choice(["", "", "4", "8", "16", "2", "8.", "%30", "32", "%5"]) for _ in range(n)]
     gates = [rng.choice(["", "", "50", "100", "80", "150", "200", "300", "1"]) for _ in range(n)]     # a note's own gate may exceed 100 %
-    return pitches, lens, gates
+    # the mark may carry a value (`&2`, `&48`, `&$20`): any value other than 0 ties the note to the next one
+    ties = [rng.choice(["&", "&", "&", "&1", "&2", "&3", "&48", "&$20"]) for _ in range(n)]
+    return pitches, lens, gates, ties
 
 def render_group(g, tied, mark=111):
-    pitches, lens, gates = g
+    pitches, lens, gates, ties = g
     out = []
     for i, (p, l, q) in enumerate(zip(pitches, lens, gates)):
         s = p + l + "," + q + ",%d" % mark      # velocities 111..113 mark the notes of tied groups (one value per group)
-        if tied and i < len(pitches) - 1: s += "&"
+        if tied and i < len(pitches) - 1: s += ties[i]
         out.append(s)
     return " ".join(out)
 
